@@ -68,6 +68,7 @@ func (state *RuntimeState) webauthnBeginRegistration(w http.ResponseWriter, r *h
 		return
 	}
 
+	defer state.lockUserProfile(assumedUser)()
 	profile, _, fromCache, err := state.LoadUserProfile(assumedUser)
 	if err != nil {
 		state.logger.Printf("webauthnBeginRegistration: loading profile error: %v", err)
@@ -137,6 +138,7 @@ func (state *RuntimeState) webauthnFinishRegistration(w http.ResponseWriter, r *
 		return
 	}
 
+	defer state.lockUserProfile(assumedUser)()
 	profile, _, fromCache, err := state.LoadUserProfile(assumedUser)
 	if err != nil {
 		logger.Printf("loading profile error: %v", err)
@@ -251,6 +253,7 @@ func (state *RuntimeState) webauthnAuthFinish(w http.ResponseWriter, r *http.Req
 		return
 	}
 	w.(*instrumentedwriter.LoggingWriter).SetUsername(authData.Username)
+	defer state.lockUserProfile(authData.Username)()
 	profile, ok, _, err := state.LoadUserProfile(authData.Username)
 	if err != nil {
 		logger.Printf("loading profile error: %v", err)
@@ -340,7 +343,9 @@ func (state *RuntimeState) webauthnAuthFinish(w http.ResponseWriter, r *http.Req
 		if ok {
 			u2fReg.Counter = parsedResponse.Response.AuthenticatorData.Counter
 			profile.U2fAuthData[credentialIndex] = u2fReg
-			go state.SaveUserProfile(authData.Username, profile)
+			// Not in the background: the save must happen while the profile
+			// of the user is locked
+			state.SaveUserProfile(authData.Username, profile)
 		}
 
 		verifiedAuth = AuthTypeU2F
